@@ -26,7 +26,7 @@ from . import common, mcommon, c04
 ID = "C08"
 NEEDS_MODEL = True
 LEVEL = "exploration"
-NSPECS = {"quick": 128, "thorough": 1500}
+NSPECS = {"quick": 160, "thorough": 1500}
 NSEEDS = {"quick": 8, "thorough": 64}
 HERE = os.path.dirname(os.path.dirname(os.path.dirname(os.path.abspath(__file__))))
 TECHNIQUE = ("runtime monitoring under schedule perturbation: worker processes with different "
@@ -48,7 +48,8 @@ def build_corpus(tier, seed):
     n = NSPECS[tier]
     i = 0
     classes = ["shape", "occupancy2", "flatten", "occupancy", "metrics", "double-flatten",
-               "cascade", "occupancy2", "metrics", "affine", "spacetime", "double-flatten", "plain"]
+               "cascade", "flatten3", "occupancy2", "metrics", "affine", "spacetime", "double-flatten",
+               "flatten3", "plain"]
     while len(items) < n and i < 10 * n:
         rnd = random.Random("%s-%d-%d" % (ID, seed, i))
         cls = classes[i % len(classes)]
